@@ -6,6 +6,7 @@ import Verif.Lemmas.JsonTree
 import Verif.Lemmas.JsonObjTree
 import Verif.Lemmas.C06Unpack
 import Verif.Lemmas.C06Writers2
+import Verif.Lemmas.JsonLayout
 /-! # C06 — Parser stages expose exactly the fields of a line and never drop it
 
 Theorems over `LogQL.Stage.apply` for json / logfmt / regexp / pattern / unpack (tied to the code by the C06 correspondence).  The JSON and logfmt *readers* are reached through `Env` (`jsonObject`, `jsonExpr`, `logfmt`): statements are relative to what the reader returns for the line; the executable readers `Verif/Env/Json.lean`, `Logfmt.lean`, `JsonExpr.lean` are compared with go-faster/jx and go-logfmt by the correspondence.  The pattern stage is proved at byte level with no environment. -/
@@ -313,6 +314,32 @@ theorem C06_logfmt_stage_exposes_pairs_all_spellings (ts : Int) (seen : Seen) (a
   apply logfmt_all_fields
   show Logfmt.read a.line = _
   rw [hl]; exact C06Writers2.logfmt_read_write2 ps h
+
+
+/-! ## Any layout (hand-added)
+
+`JsonLayout.JW` is a JSON tree in which every place where the grammar allows white space carries its own
+run of blanks, tabs, line feeds and carriage returns; `writeW` is its text (Verif/Env/JsonLayout.lean). -/
+
+/-- **C06 (json paths, any layout)**: whatever white space the document is written with — around it, inside
+empty containers, around elements, keys, colons and values — the extractor returns what the paths denote
+on the tree (a container at a requested path with its text as written) -/
+theorem C06_jsonexpr_layout_independent (paths : List (List Nat × JsonExpr.Path)) (t : JsonLayout.JW)
+    (h : JsonLayout.wfW t = true) (pre post : JsonLayout.Ws) (hpre : JsonLayout.wsOK pre = true)
+    (hpost : JsonLayout.wsOK post = true) :
+    JsonExpr.extract paths (pre ++ JsonLayout.writeW t ++ post) = (JsonLayout.denoteW paths [] t, false) :=
+  JsonLayoutL.extract_writeW paths t h pre post hpre hpost
+
+/-- **C06 (json object reader, any layout)**: the members in order, scalars as their values, containers as
+their text as written; leading white space and anything after the closing brace are ignored -/
+theorem C06_json_object_reader_layout_independent (checkInt : Bool)
+    (fs : List (JsonLayout.Ws × List Nat × JsonLayout.Ws × JsonLayout.Ws × JsonLayout.JW × JsonLayout.Ws))
+    (e : JsonLayout.Ws) (h : JsonLayout.wfW (.obj e fs) = true)
+    (hint : checkInt = true → JsonLayoutL.intsOKFieldsW fs = true) (pre : JsonLayout.Ws) (post : List Nat)
+    (hpre : JsonLayout.wsOK pre = true) :
+    Json.readObject checkInt (pre ++ JsonLayout.writeW (.obj e fs) ++ post)
+      = (fs.map (fun f => (f.2.1, JsonLayoutL.toJValW f.2.2.2.2.1)), false) :=
+  JsonLayoutL.readObject_writeW_gen checkInt fs e h hint pre post hpre
 
 
 end LogQL.C06
